@@ -178,9 +178,18 @@ class Run:
                                 "seconds": round(r.seconds, 3), "smt2_head": r.ob.smt2(False)[-700:]})
             for e in self.extra_obligations[:3]:
                 samples.append(e)
+        # obligations that failed and are listed as known findings are not part of what this run claims to hold: they are
+        # counted separately, so that obligations == discharged exactly when everything claimed was discharged
+        def _known(name: str) -> bool:
+            return any(k["obligation"] == name or (k["obligation"].endswith("*") and name.startswith(k["obligation"][:-1])) for k in known)
+
+        n_known_ob = sum(1 for e in self.extra_obligations if e["ok"] is False and _known(e["name"])) + \
+            sum(1 for r in self.results if not r.ok and (_known(r.ob.name) or _known(r.ob.name.split("/p")[0])))
+        n_ob -= n_known_ob
         cov: typing.Dict[str, typing.Any] = {
             "obligations": n_ob,
             "discharged": n_ok,
+            "obligations_failed_and_listed_as_known_findings": n_known_ob,
             "checker_cmd": self.checker_cmd,
             "trusted_base": self.trusted,
             "functions_under_contract": self.functions,
